@@ -52,25 +52,40 @@ def pushSct (data : List Nat) (nowUs : Nat) : Rs (List Nat) :=
   rsBind (systemTimeToNtp nowUs) fun ntp =>
     extendInc data (beBytes 4 (2 * 2^24 + 3 * 2^16 + 2^15 + 2^14) ++ beBytes 8 ntp) 3
 
+/-- `if pkt.toi == TOI_FDT { debug_assert!(pkt.fdt_id.is_some()); push_fdt(data, version, pkt.fdt_id.unwrap()) }` -/
+def stepFdt (d : List Nat) (pkt : Pkt) (rfc3926 : Bool) : Rs (List Nat) :=
+  if pkt.toi = 0 then
+    match pkt.fdtId with
+    | none => .error "debug_assert!(pkt.fdt_id.is_some())"
+    | some id => pushFdt d (if rfc3926 then 1 else 2) id
+  else .ok d
+
+/-- `if (pkt.toi == TOI_FDT && pkt.cenc != Cenc::Null) || pkt.inband_cenc { push_cenc(data, pkt.cenc as u8) }` -/
+def stepCenc (d : List Nat) (pkt : Pkt) : Rs (List Nat) :=
+  if (pkt.toi = 0 ∧ pkt.cenc ≠ 0) ∨ pkt.inbandCenc = true then pushCenc d pkt.cenc else .ok d
+
+/-- `if pkt.sender_current_time { push_sct(data, now) }` (both profiles) -/
+def stepSct (d : List Nat) (pkt : Pkt) (nowUs : Nat) : Rs (List Nat) :=
+  if pkt.senderCurrentTime = true then pushSct d nowUs else .ok d
+
+/-- `if pkt.toi == TOI_FDT || oti.inband_fti { codec.add_fti(data, oti, pkt.transfer_length) }` -/
+def stepFti (d : List Nat) (oti : Oti) (pkt : Pkt) : Rs (List Nat) :=
+  if pkt.toi = 0 ∨ oti.inbandFti = true then
+    match addFti oti pkt.transferLength with
+    | .error w => .error w
+    | .ok (bytes, n) => extendInc d bytes n
+  else .ok d
+
 /-- `new_alc_pkt(oti, cci, tsi, pkt, profile, now)` -/
 def newAlcPkt (oti : Oti) (cci tsi : Nat) (pkt : Pkt) (rfc3926 : Bool) (nowUs : Nat) : Rs (List Nat) :=
   let d0 := pushLctHeader 0 cci tsi pkt.toi oti.fecId pkt.closeObject false
-  -- if pkt.toi == TOI_FDT { debug_assert!(fdt_id.is_some()); push_fdt(version, fdt_id.unwrap()) }
-  (if pkt.toi = 0 then
-      match pkt.fdtId with
-      | none => .error "debug_assert!(pkt.fdt_id.is_some())"
-      | some id => pushFdt d0 (if rfc3926 then 1 else 2) id
-    else .ok d0) |> fun x => rsBind x fun d1 =>
-  (if (pkt.toi = 0 ∧ pkt.cenc ≠ 0) ∨ pkt.inbandCenc then pushCenc d1 pkt.cenc else .ok d1) |> fun x => rsBind x fun d2 =>
-  (if pkt.senderCurrentTime then pushSct d2 nowUs else .ok d2) |> fun x => rsBind x fun d3 =>
-  (if pkt.toi = 0 ∨ oti.inbandFti then
-      match addFti oti pkt.transferLength with
-      | .error w => .error w
-      | .ok (bytes, n) => extendInc d3 bytes n
-    else .ok d3) |> fun x => rsBind x fun d4 =>
-  match addPayloadId oti pkt.sbn pkt.esi pkt.sourceBlockLength with
-  | .error w => .error w
-  | .ok pid => .ok (d4 ++ pid ++ pkt.payload)
+  rsBind (stepFdt d0 pkt rfc3926) fun d1 =>
+  rsBind (stepCenc d1 pkt) fun d2 =>
+  rsBind (stepSct d2 pkt nowUs) fun d3 =>
+  rsBind (stepFti d3 oti pkt) fun d4 =>
+  -- codec.add_fec_payload_id(data, oti, pkt); push_payload(data, pkt)
+  rsBind (addPayloadId oti pkt.sbn pkt.esi pkt.sourceBlockLength) fun pid =>
+  .ok (d4 ++ pid ++ pkt.payload)
 
 /-- `new_alc_pkt_close_session(cci, tsi)` -/
 def newAlcPktCloseSession (cci tsi : Nat) : Rs (List Nat) :=
